@@ -97,3 +97,48 @@ Proof.
   destruct (str_eqb fl L_WARNING) eqn:E2; [apply str_eqb_eq in E2; contradiction|].
   reflexivity.
 Qed.
+
+(* ---------------------------------------------------------------- delivery *)
+
+Lemma run_exit_delivery_failed fl open_res o publish_res :
+  open_res = IoErr \/ publish_res = IoErr -> run_exit fl open_res o publish_res = 1.
+Proof.
+  unfold run_exit, lint_fn. intros [-> | ->]; [reflexivity|].
+  destruct open_res; [|reflexivity]. destruct o; reflexivity.
+Qed.
+
+Lemma run_exit_delivered fl r : run_exit fl IoOk (Linted r) IoOk = exit_code fl (LintDone r).
+Proof. reflexivity. Qed.
+
+Lemma run_exit_one_iff fl open_res o publish_res :
+  fl = L_ERROR \/ fl = L_WARNING ->
+  (run_exit fl open_res o publish_res = 1 <-> open_res = IoErr \/ o = LintErr \/ publish_res = IoErr).
+Proof.
+  intros Hfl. unfold run_exit.
+  destruct (exit_code_spec_proof fl (lint_fn open_res o publish_res) Hfl) as [H1 _].
+  rewrite H1. unfold lint_fn.
+  destruct open_res; [|split; auto].
+  destruct o as [|r]; [split; auto|].
+  destruct publish_res; split; auto; try discriminate.
+  intros [H|[H|H]]; discriminate.
+Qed.
+
+Lemma write_at_0_nil data : write_at 0 [] data = data.
+Proof.
+  unfold write_at. cbn [firstn app]. rewrite skipn_nil. apply app_nil_r.
+Qed.
+
+Lemma file_after_is_rendering prev rendering : file_after prev rendering = rendering.
+Proof. unfold file_after, open_truncating. apply write_at_0_nil. Qed.
+
+Lemma file_after_keeping_spec prev rendering :
+  file_after_keeping prev rendering =
+  (rendering ++ skipn (List.length rendering) (match prev with Some s => s | None => [] end))%list.
+Proof. unfold file_after_keeping, open_keeping, write_at. reflexivity. Qed.
+
+Lemma file_after_keeping_ok_when_not_shorter prev rendering :
+  (List.length (match prev with Some s => s | None => [] end) <= List.length rendering)%nat ->
+  file_after_keeping prev rendering = rendering.
+Proof.
+  intros H. rewrite file_after_keeping_spec, skipn_all2 by exact H. apply app_nil_r.
+Qed.
